@@ -85,6 +85,12 @@ def run(ctx):
             okt = any(x[0] == "agg" and x[1] == SM.task_def for x in origin_walk(o))
             ctx.ob("C08.3", "accept-thread|dispatches-connection-task|%d" % i, "what is handed to the pool is the task that serves this connection", okt, a.loc(sb), origin_str(o)[:200])
 
+    # ---- C08.6 a queued request wakes a receiver: otherwise requests of other connections wait for whichever handler returns to recv()
+    # although idle receivers exist (the queue's hand-off, decided by the rules C07.2 uses)
+    import queue_rules as QR
+    n6 = QR.rule_notify_after_push(ctx, "C08.6")
+    ctx.floor("C08.6 queueing sites", n6, 2)
+
     # ---- C08.4 worker: every popped task runs exactly once; retire only when timed out with an empty queue
     n = PR.rule_worker_loop(ctx, "C08.4")
     ctx.floor("C08.4 worker pop/wait sites", n, 3)
